@@ -25,6 +25,7 @@ import (
 	"github.com/lindb/common/pkg/logger"
 	"go.uber.org/atomic"
 
+	"github.com/lindb/lindb/internal/verifhook"
 	"github.com/lindb/lindb/pkg/queue/page"
 )
 
@@ -166,6 +167,7 @@ func (f *consumerGroup) Consume() int64 {
 
 // consume returns the seq for the next data to consume.
 func (f *consumerGroup) consume() int64 {
+	verifhook.Yield("c06-consume-enter")
 	f.lock4headSeq.Lock()
 	defer f.lock4headSeq.Unlock()
 
